@@ -112,7 +112,7 @@ pub fn state() -> impl Strategy<Value = QuakeState> {
         (text(VAL_EXCL, 30), text(VAL_EXCL, 30)),
         // (one state in sixteen carries enough variables to take the reply towards the 16 KiB a status message can have)
         prop_oneof![
-            15 => prop::collection::vec((key(), text(VAL_EXCL, 40)), 0 .. 12),
+            15 => prop::collection::vec((prop_oneof![6 => key(), 1 => crate::util::near(&["hostname", "sv_hostname", "mapname", "map", "maxclients", "sv_maxclients", "version"])], text(VAL_EXCL, 40)), 0 .. 12),
             1 => prop::collection::vec((key(), "[ -\\[\\]-~]{50,90}".prop_map(|s| s)), 60 .. 150),
         ],
         prop_oneof![3 => prop::collection::vec(player(), 0..4), 2 => prop::collection::vec(player(), 4..20), 1 => prop::collection::vec(player(), 20..65)],
